@@ -5,7 +5,9 @@ import Proofs.Lemmas.ParArchLiveMono
 /-!
 # C12 -- liveness accounting, part 3: potential functions
 
-* `budget s = R * target - sum(total_age.values())`: what is missing for rank 0's loop condition to fail;
+* `budget s = target_total_age - sum(total_age.values())` (`R * numSteps` while rank 0 is still collecting,
+  which is what it will be when `target_total_age` is assigned): what is missing for rank 0's loop
+  condition to fail;
 * `Psi`: bounds the number of loop iterations of rank 0 (`psi_step`);
 * `Phi`: every protocol operation of rank 0 lowers it by at least 1, a helper's `_send_updated_age`
   raises it by exactly 2, nothing else changes it upwards (`phi_step`);
@@ -20,22 +22,39 @@ namespace Bingo
 namespace C12
 open ParArch
 
-/-- what is missing for `average_age < target_age` to fail: `R * target - sum(total_age.values())` -/
-def budget (s : State) : Nat := s.R * s.target - tableSum s.table
+/-- what is missing for `sum(total_age.values()) < target_total_age` to fail:
+`target_total_age - sum(total_age.values())`; during the collecting loop, where `target_total_age` is
+not yet assigned, the value it will have at the end of the loop, `R * numSteps` -/
+def budget (s : State) : Nat :=
+  if isCollecting s.pc0 then s.R * s.numSteps else s.goal - tableSum s.table
 
-theorem belowTarget_iff (s : State) : belowTarget s = true ↔ 0 < budget s := by
-  simp only [belowTarget, budget, decide_eq_true_eq]; omega
+theorem budget_nc {s : State} (h : isCollecting s.pc0 = false) : budget s = s.goal - tableSum s.table := by
+  unfold budget; rw [h]; rfl
 
-theorem belowTarget_false_iff (s : State) : belowTarget s = false ↔ budget s = 0 := by
-  have := belowTarget_iff s
+theorem budget_c {s : State} (h : isCollecting s.pc0 = true) : budget s = s.R * s.numSteps := by
+  unfold budget; rw [h]; rfl
+
+theorem budget_congr {s s' : State} (h : isCollecting s.pc0 = false) (h' : isCollecting s'.pc0 = false)
+    (eg : s'.goal = s.goal) (et : s'.table = s.table) : budget s' = budget s := by
+  rw [budget_nc h, budget_nc h', eg, et]
+
+theorem belowTarget_iff (s : State) (hnc : isCollecting s.pc0 = false) : belowTarget s = true ↔ 0 < budget s := by
+  rw [budget_nc hnc]
+  simp only [belowTarget, decide_eq_true_eq]; omega
+
+theorem belowTarget_false_iff (s : State) (hnc : isCollecting s.pc0 = false) :
+    belowTarget s = false ↔ budget s = 0 := by
+  have := belowTarget_iff s hnc
   cases h : belowTarget s
   · simp only [h, Bool.false_eq_true, false_iff] at this; simp; omega
   · simp only [h, true_iff] at this; simp; omega
 
 /-- position of rank 0 in `_non_blocking_execution_main`, counted in protocol operations still to come
-if no further AGE_UPDATE message had to be received (`b` = the loop budget, only used to tell the
-exceptional start "in the loop although the condition already fails" apart) -/
+if no further AGE_UPDATE message had to be received in a drain loop (`b` = the loop budget, only used to
+tell the exceptional start "in the loop although the condition already fails" apart); before the
+collecting receive from `k` there are `R - k` such receives to come -/
 def ordPc (R b : Nat) : Pc0 → Nat
+  | .collecting k => R + 5 + (R - k)
   | .evolving => if b = 0 then R + 6 else R + 4
   | .draining none => R + 5
   | .draining (some _) => R + 4
@@ -63,6 +82,36 @@ theorem ordPc_evolving_pos (R b : Nat) (hb : 0 < b) : ordPc R b .evolving = R + 
 theorem ordPc_evolving_zero (R : Nat) : ordPc R 0 .evolving = R + 6 := by
   simp only [ordPc, if_true]
 
+/-- the end of the collecting loop, seen by the potentials -/
+theorem finishCollect_facts (s : State) (hR : 0 < s.R) :
+    budget (finishCollect s) = s.R * s.numSteps ∧
+    ordPc s.R (s.R * s.numSteps) (finishCollect s).pc0 ≤ s.R + 4 ∧
+    isCollecting (finishCollect s).pc0 = false ∧
+    ((finishCollect s).pc0 = .evolving → 0 < s.R * s.numSteps) := by
+  have hnc : isCollecting (finishCollect s).pc0 = false := by
+    show isCollecting (if _ then Pc0.evolving else afterExit s.R 1) = false
+    split
+    · rfl
+    · exact afterExit_not_collecting _ _
+  refine ⟨?_, ?_, hnc, ?_⟩
+  · rw [budget_nc hnc]
+    show tableSum s.table + s.numSteps * s.R - tableSum s.table = s.R * s.numSteps
+    rw [Nat.mul_comm]; omega
+  · show ordPc s.R (s.R * s.numSteps) (if tableSum s.table < tableSum s.table + s.numSteps * s.R then Pc0.evolving
+      else afterExit s.R 1) ≤ s.R + 4
+    rw [Nat.mul_comm s.numSteps s.R]
+    split
+    · rename_i hlt
+      have : s.R * s.numSteps ≠ 0 := by omega
+      simp only [ordPc, this, if_false]; omega
+    · have := ordPc_afterExit_one s.R (s.R * s.numSteps) hR; omega
+  · show (if tableSum s.table < tableSum s.table + s.numSteps * s.R then Pc0.evolving else afterExit s.R 1) = .evolving → _
+    rw [Nat.mul_comm s.numSteps s.R]
+    split
+    · intro _; omega
+    · intro e
+      rcases afterExit_cases s.R 1 with ⟨_, e'⟩ | ⟨_, e'⟩ <;> rw [e'] at e <;> cases e
+
 /-- every protocol operation of rank 0 lowers `Phi` by at least 1 (a slice of rank 0 must add `k ≥ 1`
 generations); a scheduling point leaves it unchanged -/
 theorem phi_step0 {s s' : State} {a : Action} (inv : Inv s) (mono : Mono s) (hk : slicePos a = true)
@@ -77,44 +126,64 @@ theorem phi_step0 {s s' : State} {a : Action} (inv : Inv s) (mono : Mono s) (hk 
     have h1 := tableSum_evolve0 inv k
     by_cases hb : budget s = 0
     · simp only [Phi, h, hb, ordPc_evolving_zero]
-      simp only [budget, ordPc, isTick, Bool.false_eq_true, if_false] at hb ⊢
+      simp only [budget, ordPc, isTick, Bool.false_eq_true, if_false, isCollecting, h] at hb ⊢
       omega
     · simp only [Phi, h, ordPc_evolving_pos _ _ (Nat.pos_of_ne_zero hb)]
-      simp only [budget, ordPc, isTick, Bool.false_eq_true, if_false] at hb ⊢
+      simp only [budget, ordPc, isTick, Bool.false_eq_true, if_false, isCollecting, h] at hb ⊢
       omega
-  | probeSome r q h hq => simp only [Phi, budget, h, ordPc, isTick, Bool.false_eq_true, if_false]; omega
+  | probeSome r q h hq => simp only [Phi, budget, h, ordPc, isTick, Bool.false_eq_true, if_false, isCollecting]; omega
   | probeLoop r h hq hb =>
-    rw [belowTarget_iff] at hb
-    have e : budget { s with pc0 := Pc0.evolving } = budget s := rfl
+    rw [belowTarget_iff s (by rw [h]; rfl)] at hb
+    have e : budget { s with pc0 := Pc0.evolving } = budget s := budget_congr (by rw [h]; rfl) rfl rfl rfl
     simp only [Phi, h, e, ordPc_evolving_pos _ _ hb]
     simp only [ordPc, isTick, Bool.false_eq_true, if_false]
     omega
   | probeExit r h hq hb =>
-    rw [belowTarget_false_iff] at hb
+    rw [belowTarget_false_iff s (by rw [h]; rfl)] at hb
     have := ordPc_afterExit_one s.R 0 inv.Rpos
-    have e : budget { s with pc0 := afterExit s.R 1 } = budget s := rfl
+    have e : budget { s with pc0 := afterExit s.R 1 } = budget s :=
+      budget_congr (by rw [h]; rfl) (afterExit_not_collecting _ _) rfl rfl
     have e2 : ordPc s.R 0 (Pc0.draining none) = s.R + 5 := rfl
     simp only [Phi, h, e, hb, e2, isTick, Bool.false_eq_true, if_false]
     omega
-  | probeSomeF r q h hq => simp only [Phi, budget, h, ordPc, isTick, Bool.false_eq_true, if_false]; omega
-  | probeDone r h hq => simp only [Phi, budget, h, ordPc, isTick, Bool.false_eq_true, if_false]; omega
+  | probeSomeF r q h hq => simp only [Phi, budget, h, ordPc, isTick, Bool.false_eq_true, if_false, isCollecting]; omega
+  | probeDone r h hq => simp only [Phi, budget, h, ordPc, isTick, Bool.false_eq_true, if_false, isCollecting]; omega
+  | collectNext r k a rest h ht hk' =>
+    have hl := (takeFrom_sublist ht).2
+    have hk0 := inv.collK k h
+    simp only [Phi, budget, h, isCollecting, ordPc, isTick, Bool.false_eq_true, if_false, if_true]
+    omega
+  | collectLast r k a rest h ht hk' =>
+    have hl := (takeFrom_sublist ht).2
+    have hf := finishCollect_facts { s with mbox := rest, table := s.table.set k (some a) } inv.Rpos
+    have hb : budget (finishCollect { s with mbox := rest, table := s.table.set k (some a) }) = s.R * s.numSteps := hf.1
+    have ho : ordPc s.R (s.R * s.numSteps)
+        (finishCollect { s with mbox := rest, table := s.table.set k (some a) }).pc0 ≤ s.R + 4 := hf.2.1
+    have hB : budget s = s.R * s.numSteps := budget_c (by rw [h]; rfl)
+    show 2 * budget (finishCollect _) + 2 * rest.length + ordPc s.R (budget (finishCollect _)) (finishCollect _).pc0 + 1
+      ≤ 2 * budget s + 2 * s.mbox.length + ordPc s.R (budget s) s.pc0
+    have hO : ordPc s.R (budget s) s.pc0 = s.R + 5 + (s.R - k) := by rw [h]; rfl
+    have hk0 := inv.collK k h
+    rw [hO, hb, hB]
+    omega
   | recv r src a rest h ht =>
     have hl := (takeFrom_sublist ht).2
-    simp only [Phi, budget, h, ordPc, isTick, Bool.false_eq_true, if_false] at hts ⊢
+    simp only [Phi, budget, h, ordPc, isTick, Bool.false_eq_true, if_false, isCollecting] at hts ⊢
     omega
   | recvF r src a rest h ht =>
     have hl := (takeFrom_sublist ht).2
-    simp only [Phi, budget, h, ordPc, isTick, Bool.false_eq_true, if_false] at hts ⊢
+    simp only [Phi, budget, h, ordPc, isTick, Bool.false_eq_true, if_false, isCollecting] at hts ⊢
     omega
   | sendExit r k h hk' =>
-    have e : budget { s with exitQ := s.exitQ.set k (s.exitQ.getD k 0 + 1), pc0 := afterExit s.R (k + 1) } = budget s := rfl
+    have e : budget { s with exitQ := s.exitQ.set k (s.exitQ.getD k 0 + 1), pc0 := afterExit s.R (k + 1) } = budget s :=
+      budget_congr (by rw [h]; rfl) (afterExit_not_collecting _ _) rfl rfl
     have := ordPc_afterExit_succ s.R (budget s) k hk'
     have e2 : ordPc s.R (budget s) (Pc0.sendingExit k) = 4 + (s.R - k) := rfl
     simp only [Phi, h, e, e2, isTick, Bool.false_eq_true, if_false]
     omega
-  | enter r h => simp only [Phi, budget, h, ordPc, isTick, Bool.false_eq_true, if_false]; omega
+  | enter r h => simp only [Phi, budget, h, ordPc, isTick, Bool.false_eq_true, if_false, isCollecting]; omega
   | leave r h ha =>
-    simp only [Phi, budget, h, ordPc, isTick, Bool.false_eq_true, if_false] at hts ⊢
+    simp only [Phi, budget, h, ordPc, isTick, Bool.false_eq_true, if_false, isCollecting] at hts ⊢
     omega
 
 /-- a helper changes `Phi` only by `_send_updated_age`: one more message to probe and receive -/
@@ -166,15 +235,25 @@ def Psi (s : State) : Nat := budget s + loopExtra (budget s) s.pc0
 theorem loopExtra_afterExit (R b k : Nat) : loopExtra b (afterExit R k) = 0 := by
   rcases afterExit_cases R k with ⟨_, e⟩ | ⟨_, e⟩ <;> rw [e] <;> rfl
 
+theorem loopExtra_finish (s : State) (hR : 0 < s.R) :
+    loopExtra (s.R * s.numSteps) (finishCollect s).pc0 = 0 := by
+  have hf := (finishCollect_facts s hR).2.2.2
+  cases hp : (finishCollect s).pc0 with
+  | evolving =>
+    have := hf hp
+    have hne : s.R * s.numSteps ≠ 0 := by omega
+    simp only [loopExtra, hne, if_false]
+  | _ => rfl
+
 theorem loopExtra_le (b : Nat) (p : Pc0) : loopExtra b p ≤ 1 := by
   cases p <;> simp only [loopExtra] <;> (try split) <;> omega
 
 theorem stepH_frame0 {s s' : State} {a : Action} {r : Nat} (h : StepHC s r a s') :
-    s'.table = s.table ∧ s'.pc0 = s.pc0 ∧ s'.R = s.R ∧ s'.target = s.target := by
-  cases h <;> exact ⟨rfl, rfl, rfl, rfl⟩
+    s'.table = s.table ∧ s'.pc0 = s.pc0 ∧ s'.R = s.R ∧ s'.numSteps = s.numSteps ∧ s'.goal = s.goal := by
+  cases h <;> exact ⟨rfl, rfl, rfl, rfl, rfl⟩
 
 theorem step0_frame0 {s s' : State} {a : Action} (h : Step0 s a s') :
-    s'.pcH = s.pcH ∧ s'.R = s.R ∧ s'.target = s.target := by
+    s'.pcH = s.pcH ∧ s'.R = s.R ∧ s'.numSteps = s.numSteps := by
   cases h <;> exact ⟨rfl, rfl, rfl⟩
 
 theorem psi_step0 {s s' : State} {a : Action} (inv : Inv s) (mono : Mono s) (hk : slicePos a = true)
@@ -189,39 +268,55 @@ theorem psi_step0 {s s' : State} {a : Action} (inv : Inv s) (mono : Mono s) (hk 
     have h1 := tableSum_evolve0 inv k
     by_cases hb : budget s = 0
     · simp only [Psi, h, hb, loopExtra, isEvolve0, beq_self_eq_true, if_true]
-      simp only [budget] at hb ⊢
+      simp only [budget, isCollecting, h, Bool.false_eq_true, if_false] at hb ⊢
       omega
     · simp only [Psi, h, hb, loopExtra, isEvolve0, beq_self_eq_true, if_true, if_false]
-      simp only [budget] at hb ⊢
+      simp only [budget, isCollecting, h, Bool.false_eq_true, if_false] at hb ⊢
       omega
-  | probeSome r q h hq => simp only [Psi, budget, h, loopExtra, isEvolve0, Bool.false_eq_true, if_false]; omega
+  | probeSome r q h hq => simp only [Psi, budget, h, loopExtra, isEvolve0, Bool.false_eq_true, if_false, isCollecting]; omega
   | probeLoop r h hq hb =>
-    rw [belowTarget_iff] at hb
-    have e : budget { s with pc0 := Pc0.evolving } = budget s := rfl
+    rw [belowTarget_iff s (by rw [h]; rfl)] at hb
+    have e : budget { s with pc0 := Pc0.evolving } = budget s := budget_congr (by rw [h]; rfl) rfl rfl rfl
     have hb' : budget s ≠ 0 := by omega
     simp only [Psi, h, e, loopExtra, hb', isEvolve0, Bool.false_eq_true, if_false]
     omega
   | probeExit r h hq hb =>
-    have e : budget { s with pc0 := afterExit s.R 1 } = budget s := rfl
+    have e : budget { s with pc0 := afterExit s.R 1 } = budget s :=
+      budget_congr (by rw [h]; rfl) (afterExit_not_collecting _ _) rfl rfl
     have e2 : loopExtra (budget s) (Pc0.draining none) = 0 := rfl
     simp only [Psi, h, e, e2, loopExtra_afterExit, isEvolve0, Bool.false_eq_true, if_false]
     omega
-  | probeSomeF r q h hq => simp only [Psi, budget, h, loopExtra, isEvolve0, Bool.false_eq_true, if_false]; omega
-  | probeDone r h hq => simp only [Psi, budget, h, loopExtra, isEvolve0, Bool.false_eq_true, if_false]; omega
+  | probeSomeF r q h hq => simp only [Psi, budget, h, loopExtra, isEvolve0, Bool.false_eq_true, if_false, isCollecting]; omega
+  | probeDone r h hq => simp only [Psi, budget, h, loopExtra, isEvolve0, Bool.false_eq_true, if_false, isCollecting]; omega
+  | collectNext r k a rest h ht hk' =>
+    simp only [Psi, budget, h, isCollecting, loopExtra, isEvolve0, Bool.false_eq_true, if_false, if_true]
+    omega
+  | collectLast r k a rest h ht hk' =>
+    have hf := finishCollect_facts { s with mbox := rest, table := s.table.set k (some a) } inv.Rpos
+    have hb : budget (finishCollect { s with mbox := rest, table := s.table.set k (some a) }) = s.R * s.numSteps := hf.1
+    have hB : budget s = s.R * s.numSteps := budget_c (by rw [h]; rfl)
+    have hx := loopExtra_finish { s with mbox := rest, table := s.table.set k (some a) } inv.Rpos
+    show budget (finishCollect _) + loopExtra (budget (finishCollect _)) (finishCollect _).pc0 + 0
+      ≤ budget s + loopExtra (budget s) s.pc0
+    have hx' : loopExtra (s.R * s.numSteps)
+        (finishCollect { s with mbox := rest, table := s.table.set k (some a) }).pc0 = 0 := hx
+    rw [hb, hB, hx']
+    omega
   | recv r src a rest h ht =>
-    simp only [Psi, budget, h, loopExtra, isEvolve0, Bool.false_eq_true, if_false] at hts ⊢
+    simp only [Psi, budget, h, loopExtra, isEvolve0, Bool.false_eq_true, if_false, isCollecting] at hts ⊢
     omega
   | recvF r src a rest h ht =>
-    simp only [Psi, budget, h, loopExtra, isEvolve0, Bool.false_eq_true, if_false] at hts ⊢
+    simp only [Psi, budget, h, loopExtra, isEvolve0, Bool.false_eq_true, if_false, isCollecting] at hts ⊢
     omega
   | sendExit r k h hk' =>
-    have e : budget { s with exitQ := s.exitQ.set k (s.exitQ.getD k 0 + 1), pc0 := afterExit s.R (k + 1) } = budget s := rfl
+    have e : budget { s with exitQ := s.exitQ.set k (s.exitQ.getD k 0 + 1), pc0 := afterExit s.R (k + 1) } = budget s :=
+      budget_congr (by rw [h]; rfl) (afterExit_not_collecting _ _) rfl rfl
     have e2 : loopExtra (budget s) (Pc0.sendingExit k) = 0 := rfl
     simp only [Psi, h, e, e2, loopExtra_afterExit, isEvolve0, Bool.false_eq_true, if_false]
     omega
-  | enter r h => simp only [Psi, budget, h, loopExtra, isEvolve0, Bool.false_eq_true, if_false]; omega
+  | enter r h => simp only [Psi, budget, h, loopExtra, isEvolve0, Bool.false_eq_true, if_false, isCollecting]; omega
   | leave r h ha =>
-    simp only [Psi, budget, h, loopExtra, isEvolve0, Bool.false_eq_true, if_false] at hts ⊢
+    simp only [Psi, budget, h, loopExtra, isEvolve0, Bool.false_eq_true, if_false, isCollecting] at hts ⊢
     omega
 
 /-- every completed slice of rank 0 lowers `Psi` by at least 1; nothing raises it -/
@@ -229,9 +324,9 @@ theorem psi_step {s s' : State} {a : Action} (inv : Inv s) (mono : Mono s) (hk :
     (h : step s a = some s') : Psi s' + (if isEvolve0 a then 1 else 0) ≤ Psi s := by
   rcases step_cases h with ⟨hr, h0⟩ | ⟨h0, hR, hH⟩
   · exact psi_step0 inv mono hk hr h0
-  · obtain ⟨e1, e2, e3, e4⟩ := stepH_frame0 hH
+  · obtain ⟨e1, e2, e3, e4, e5⟩ := stepH_frame0 hH
     rw [(helper_flags h0).2]
-    simp only [Psi, budget, e1, e2, e3, e4, Bool.false_eq_true, if_false]
+    simp only [Psi, budget, e1, e2, e3, e4, e5, Bool.false_eq_true, if_false]
     omega
 
 /-! ## helpers after their exit notification -/
@@ -251,6 +346,8 @@ theorem exitSent_step {s s' : State} {a : Action} {r : Nat} (h : step s a = some
     | probeExit r' hp hq hb => rw [hp] at hs; simp [exitSent] at hs
     | probeSomeF r' q hp hq => rfl
     | probeDone r' hp hq => rfl
+    | collectNext r' k a rest hp ht hk => rw [hp] at hs; simp [exitSent] at hs
+    | collectLast r' k a rest hp ht hk => rw [hp] at hs; simp [exitSent] at hs
     | recv r' src a rest hp ht => rw [hp] at hs; simp [exitSent] at hs
     | recvF r' src a rest hp ht => rfl
     | sendExit r' k hp hk =>
